@@ -59,6 +59,9 @@ Definition chk (c : wcase) : nat :=
 
 def g_wact(name):
     kind, who = name
+    if kind in ("PutTimeout", "Sleep", "ValueGet", "ValueSet", "LockAcq"):
+        # not an action of the modelled walk (an action that is never enabled stops the replay at this step)
+        return "(DJoinW 4000)"
     if who.startswith("M"):
         if kind == "Put":
             return "DPut"
@@ -89,6 +92,7 @@ def g_wact(name):
 
 
 def g_trace(trace):
+    trace = trace[:4000]
     return g_list(["(%s, %s)" % (g_list([g_wact(n) for n in en]), g_wact(ch)) for en, ch in trace])
 
 
